@@ -293,8 +293,10 @@ func (s *Store) DeleteTransaction(id uuid.UUID) error {
 
 func (s *Store) GCTransactions(txTTL time.Duration) (ids []uuid.UUID, err error) {
 	cutOffTime := time.Now().Add(-txTTL)
+	// begin is stored as text in the time zone of the process that opened the
+	// transaction: compare instants (julianday converts to UTC), not the text
 	rows, err := s.db.Query(
-		`DELETE FROM transactions WHERE status = ? AND begin <= ? RETURNING id`,
+		`DELETE FROM transactions WHERE status = ? AND julianday(begin) <= julianday(?) RETURNING id`,
 		ref.TSInProgress, cutOffTime,
 	)
 	if err != nil {
